@@ -188,6 +188,8 @@ def run(ctx):
     control_salts(ctx)
     import choicelib
     choicelib.run_key_lengths(ctx, 17 if ctx.tier == 'quick' else 22)
+    # values of every kind asked against membership tables of every size, also ones that nest an identifier
+    progcases.run_cases(ctx, gen.nested_identifier_tuples(), check_model=False, want_stages=False)
 
 
 def many_keys_under_threads(ctx, nkeys, nthreads=8):
